@@ -1,14 +1,16 @@
 #!/bin/bash
-# usage: trymut.sh <ID> <file-relative-to-repo> <python-replace-old> <python-replace-new> [tier] -- apply a one-off textual mutation to /repo, run the check, undo.
-ID="$1"; F="$2"; OLD="$3"; NEW="$4"; TIER="${5:-quick}"
-python3 - "$F" "$OLD" "$NEW" <<'PY' || exit 3
+# usage: trymut.sh <ID> <file-relative-to-repo> <python-replace-old> <python-replace-new> [tier] [extra gosmt flags]
+# Applies a one-off textual mutation to a scratch worktree of /repo (never /repo itself), runs the check there, removes it.
+ID="$1"; F="$2"; OLD="$3"; NEW="$4"; TIER="${5:-quick}"; shift 4; shift 2>/dev/null
+W=/tmp/trymut-$ID-$$
+git -C /repo worktree add -q --detach $W HEAD || exit 3
+trap 'git -C /repo worktree remove --force $W >/dev/null 2>&1' EXIT
+python3 - "$W/$F" "$OLD" "$NEW" <<'PY' || exit 3
 import sys
-f,old,new=sys.argv[1:4]
-p='/repo/'+f
+p,old,new=sys.argv[1:4]
 s=open(p).read()
 if old not in s: print("pattern not found"); sys.exit(3)
 open(p,'w').write(s.replace(old,new,1))
 PY
-(cd /repo && go build ./... 2>&1 | head -5)
-/verif/check "$ID" "$TIER" -noevidence 2>&1 | grep -E "VIOLATION|OK property|INCONCLUSIVE|violation:" | cut -c1-250 | head -6
-git -C /repo checkout -- .
+(cd $W && GOFLAGS=-mod=mod GOPROXY=off go build ./... 2>&1 | head -5)
+VERIF_REPLAYDIR=$W/.verif-replays VERIF_REPO=$W /verif/check "$ID" "$TIER" -noevidence "$@" 2>&1 | grep -E "VIOLATION|OK property|INCONCLUSIVE|violation:" | cut -c1-250 | head -6
